@@ -285,7 +285,8 @@ pub fn run(tier: Tier) -> i32 {
         Tier::Quick => Duration::from_secs(120),
         Tier::Thorough => Duration::from_secs(1500),
     };
-    let sweep = run_stage("sweep", 22 * 16 * 7, wall_cap, &mut total, &|i| sweep_scenario(i, sweep_len), &exec_guarded, &[10], 4);
+    let seeded_runs = crate::gen::scaled(seeded_runs);
+    let sweep = run_stage("sweep", if crate::gen::skip_fixed() { 1 } else { 22 * 16 * 7 }, wall_cap, &mut total, &|i| sweep_scenario(i, sweep_len), &exec_guarded, &[10], 4);
     let seeded = if sweep.found.is_none() {
         Some(run_stage("seeded", seeded_runs, wall_cap, &mut total, &|i| generate(&mut Rng::new(run_seed(c.seed, PROP, "seeded", i)), tier), &exec_guarded, &[0, 1], 4))
     } else {
